@@ -658,6 +658,7 @@ class DifferenceMonitor(Monitor):
                 prepend=prepend,
                 filter_=filter_,
                 map_=map_,
+                op_=op_,
             )
 
         return constructor
